@@ -117,6 +117,12 @@ func (s *c19Store) Predecessors(ctx context.Context, node ocispec.Descriptor) ([
 }
 
 func c19PushBytes(ctx context.Context, pusher content.Pusher, mediaType string, contentBytes []byte) (ocispec.Descriptor, error) {
+	// content addressed: pushing bytes that are already stored fails with ErrAlreadyExists, as oras' stores do
+	for _, n := range c19S.nodes {
+		if n.refs == nil && n.desc.MediaType == mediaType && string(n.data) == string(contentBytes) {
+			return ocispec.Descriptor{}, errdef.ErrAlreadyExists
+		}
+	}
 	return c19S.add(mediaType, contentBytes, int64(len(contentBytes)), nil), nil
 }
 
